@@ -31,15 +31,16 @@ def parts(tier):
 @gen.st.composite
 def _strategy(draw):
     mode = draw(gen.st.integers(0, 5))
-    hard = tuple([gen.NH] * 6 + [gen.N, gen.N0, gen.A, gen.Z, gen.B, gen.T_HI])
+    hard = tuple([gen.NH] * 6 + [gen.N, gen.N0, gen.A, gen.Z, gen.B, gen.BN, gen.BN, gen.ZN, gen.T_HI])
+    sbo = 3  # blocklisted states (together with unit blocklists) in a third of the multi-state elections
     if mode == 0:  # everything reports
-        case = draw(gen.election_case(max_other=0, special_counties=False, thresholds=(100, 90)))
+        case = draw(gen.election_case(max_other=0, special_counties=False, thresholds=(100, 90), state_blocklist_odds=sbo))
     elif mode in (1, 2):
-        case = draw(gen.election_case(statuses=hard, min_nonrep=2, swing_scale=0.05))
+        case = draw(gen.election_case(statuses=hard, min_nonrep=2, swing_scale=0.05, state_blocklist_odds=sbo))
     elif mode == 3:
-        case = draw(gen.election_case(statuses=hard, min_nonrep=2, swing_scale=2.0))
+        case = draw(gen.election_case(statuses=hard, min_nonrep=2, swing_scale=2.0, state_blocklist_odds=sbo))
     else:
-        case = draw(gen.election_case(min_nonrep=1))
+        case = draw(gen.election_case(min_nonrep=1, state_blocklist_odds=sbo))
     if "unit" not in case["req"]["aggregates"]:
         case["req"]["aggregates"] = case["req"]["aggregates"] + ["unit"]
     case["mode"] = mode
